@@ -198,15 +198,41 @@ func (c *c11Case) String() string {
 }
 
 // c11Feed pushes the stream through a fresh adapter pair, cut at the given points.
-func c11Feed(c *c11Case, cuts []int) (rec *recProc, sink *recSink, err error) {
-	sinkC, sinkS := &recSink{}, &recSink{}
-	var recC, recS *recProc
-	factory := mgrpc.AsStreamProcessorFactory(func(_ *url.URL, server, client mgrpc.Processor) (mgrpc.Processor, mgrpc.Processor) {
-		recC, recS = &recProc{next: server}, &recProc{next: client}
-		return recC, recS
+// c11Factory is the one factory value of a run: like the one a proxy is configured with, it is
+// asked for the processors of every stream, gRPC or not, one after the other.
+type c11Factory struct {
+	f          h2.StreamProcessorFactory
+	recC, recS *recProc
+	primed     bool
+}
+
+func newC11Factory() *c11Factory {
+	cf := &c11Factory{}
+	cf.f = mgrpc.AsStreamProcessorFactory(func(_ *url.URL, server, client mgrpc.Processor) (mgrpc.Processor, mgrpc.Processor) {
+		cf.recC, cf.recS = &recProc{next: server}, &recProc{next: client}
+		return cf.recC, cf.recS
 	})
+	return cf
+}
+
+var c11CurFactory *c11Factory
+
+func c11Feed(c *c11Case, cuts []int) (rec *recProc, sink *recSink, err error) {
+	cf := c11CurFactory
+	if cf == nil {
+		cf = newC11Factory()
+	}
 	u, _ := url.Parse("https://origin.test")
-	cToS, sToC := factory(u, h2.VerifNewProcessors(sinkC, sinkS))
+	if !c.grpc && !cf.primed {
+		// an earlier stream of the same session was a gRPC stream
+		cf.primed = true
+		p, _ := cf.f(u, h2.VerifNewProcessors(&recSink{}, &recSink{}))
+		p.Header([]hpack.HeaderField{{Name: ":method", Value: "POST"}, {Name: ":path", Value: "/svc/Earlier"}, {Name: "content-type", Value: "application/grpc"}}, false, http2.PriorityParam{})
+		p.Data([]byte{0, 0, 0, 0, 1, 'x'}, true)
+	}
+	sinkC, sinkS := &recSink{}, &recSink{}
+	cToS, sToC := cf.f(u, h2.VerifNewProcessors(sinkC, sinkS))
+	recC, recS := cf.recC, cf.recS
 	ct := "application/grpc"
 	if !c.grpc {
 		ct = "application/json"
@@ -348,6 +374,8 @@ func encName(e string) string {
 
 func runC11(k *kernel.K) {
 	w := k.W
+	c11CurFactory = newC11Factory()
+	defer func() { c11CurFactory = nil }()
 	c := &c11Case{grpc: !w.Chance(1, 8)}
 	c.enc = []string{"", "identity", "gzip", "deflate", "snappy"}[w.Pick([]int{2, 2, 3, 2, 3})]
 	c.placement = []string{"last_data", "separate_empty"}[w.Draw(2)]
